@@ -508,6 +508,38 @@ Fixpoint rotate (c : config) (now : Z) (hist : list (list bytes)) : res config :
   | ks :: r => do c' <- set_session_ticket_keys c now ks; rotate c' now r
   end.
 
+(* ---------- a family of Configs: Config.Clone (common.go:976) ----------
+   Clone copies SessionTicketsDisabled, SessionTicketKey, sessionTicketKeys and autoSessionTicketKeys; the
+   slices are never written through afterwards (SetSessionTicketKeys and ticketKeys allocate fresh ones), so
+   a clone is an independent VALUE: the store is a list of configs and Clone appends a copy. *)
+Definition store := list config.
+Fixpoint upd {A} (l : list A) (i : nat) (x : A) : list A :=
+  match l, i with
+  | [], _ => []
+  | _ :: r, O => x :: r
+  | y :: r, S i' => y :: upd r i' x
+  end.
+Inductive sop := SSet (i : nat) (ks : list bytes) | SClone (i : nat).
+Definition E_NOCFG : N := 8.
+Definition sstep (now : Z) (st : store) (op : sop) : res store :=
+  match op with
+  | SSet i ks =>
+      match nth_error st i with
+      | None => Err E_NOCFG
+      | Some c => do c' <- set_session_ticket_keys c now ks; Ok (upd st i c')
+      end
+  | SClone i =>
+      match nth_error st i with
+      | None => Err E_NOCFG
+      | Some c => Ok (st ++ [c])
+      end
+  end.
+Fixpoint srun (now : Z) (st : store) (ops : list sop) : res store :=
+  match ops with
+  | [] => Ok st
+  | op :: r => do st' <- sstep now st op; srun now st' r
+  end.
+
 End Crypto.
 
 (* ---------- forged ClientSessionState, u_public.go:681-801 ---------- *)
